@@ -1378,7 +1378,7 @@ def _found(sc, m, r, feats, family):
 
 def find(prop, fo, seed):
     t0 = time.time()
-    deadline = t0 + TOTAL_BUDGET_S
+    deadline = t0 + ((fo or {}).get("budget") or TOTAL_BUDGET_S)
     function = (fo or {}).get("function") or ""
     if prop == "C13":
         # the b3sum unit's functions are `crate::...` too (another crate): dispatch on the property FIRST.
